@@ -6,6 +6,7 @@ import (
 	"os"
 	"runtime/debug"
 	"strings"
+	"sync"
 	"time"
 )
 
@@ -72,10 +73,20 @@ type emitter struct {
 	out      *os.File
 	progress string
 	idx      int
+	judge    string      // when set, copied into the meta of every emitted line (mixed streams: C16)
+	mu       *sync.Mutex // shared by the copies made by with()
+}
+
+// with returns a copy of the emitter for one case of a mixed / concurrent stream.
+func (e *emitter) with(judge string) *emitter {
+	c := *e
+	c.judge = judge
+	return &c
 }
 
 // Meta is the side information of a case: never seen by the judge.
 type Meta struct {
+	Judge string      `json:"judge,omitempty"`
 	Class string      `json:"class"`
 	Msg   string      `json:"msg,omitempty"`
 	Extra interface{} `json:"extra,omitempty"`
@@ -92,6 +103,9 @@ func (m Meta) json() string {
 
 func (e *emitter) begin(idx int, c Sx, meta Meta) {
 	e.idx = idx
+	meta.Judge = e.judge
+	e.mu.Lock()
+	defer e.mu.Unlock()
 	if e.progress != "" {
 		os.WriteFile(e.progress, []byte(fmt.Sprintf("%d\t%s\t%s\n", idx, c.String(), meta.json())), 0o644)
 	}
@@ -100,6 +114,9 @@ func (e *emitter) begin(idx int, c Sx, meta Meta) {
 // emit writes "idx <tab> (case obs) <tab> meta-json"
 func (e *emitter) emit(c Sx, obs Sx, meta Meta) {
 	meta.Msg = clean(meta.Msg)
+	meta.Judge = e.judge
+	e.mu.Lock()
+	defer e.mu.Unlock()
 	fmt.Fprintf(e.out, "%d\t%s\t%s\n", e.idx, L(c, obs).String(), meta.json())
 }
 
